@@ -2,16 +2,16 @@
 //
 // Value model (all values boxed in the empty interface `value`):
 //
-//   bool            concrete boolean          | *sym.Term of sort Bool
-//   uint64          every integer kind; the bit pattern truncated to the
-//                   static type's width, zero-extended | *sym.Term (BitVec w)
-//   float64         float32/float64 (concrete only)
-//   string          concrete string           | symstr (concrete length,
-//                   per-octet uint64 or *sym.Term)
-//   []value         slices (real Go slices: aliasing, cap, append are exact)
-//   *value          pointers
-//   structure, array, iface, tuple, *closure, *ssa.Function, *ssa.Builtin,
-//   *vmap, *vchan, iter  as in go/ssa/interp, whose structure this follows.
+//	bool            concrete boolean          | *sym.Term of sort Bool
+//	uint64          every integer kind; the bit pattern truncated to the
+//	                static type's width, zero-extended | *sym.Term (BitVec w)
+//	float64         float32/float64 (concrete only)
+//	string          concrete string           | symstr (concrete length,
+//	                per-octet uint64 or *sym.Term)
+//	[]value         slices (real Go slices: aliasing, cap, append are exact)
+//	*value          pointers
+//	structure, array, iface, tuple, *closure, *ssa.Function, *ssa.Builtin,
+//	*vmap, *vchan, iter  as in go/ssa/interp, whose structure this follows.
 package exec
 
 import (
